@@ -2,8 +2,9 @@
 origin -> (0,0), x eastward, y northward.  Real arithmetic; radians/degrees are the linear maps
 *pi/180, *180/pi with pi a positive symbol; cos uninterpreted with the axiom instance
 cos(phi0*pi/180) > 0 for |phi0| < 90 (A8); math.cos and np.cos denote the same function.
-The great-circle accuracy clause (0.1 % / 0.1 deg) is a transcendental inequality over a box:
-not decided by contracts, bounded stand-in only."""
+The great-circle accuracy clause (0.1 % / 0.1 deg for offsets up to 5 km, |ref lat| <= 60) is a lemma chain over the
+forward-map contract (generate_accuracy): polynomial inequalities over fresh reals standing for the sines and cosines
+that occur, constrained only by named Taylor enclosures (A8)."""
 import z3
 
 from pyvc import sym, arrays, harness, loops, npshim, transc
@@ -14,9 +15,80 @@ from contracts.parser import MathShim
 P = {"C17"}
 
 
+def generate_accuracy(ctx):
+    """Great-circle accuracy of the forward map (C17, second sentence) as lemmas over the contract
+        x = R b c,  y = R a      (a = lat_r - ref_lat_r, b = lon_r - ref_lon_r, c = cos(ref_lat_r); obligations forward.x/.y)
+    against the textbook oracle on the sphere of the SAME radius R:
+        d  = 2 R asin(sqrt(hav)),  hav = sin^2(a/2) + cos(phi0) cos(phi0 + a) sin^2(b/2)
+        th = atan2(E, N),  E = sin(b) cos(phi0 + a),  N = cos(phi0) sin(phi0 + a) - sin(phi0) cos(phi0 + a) cos(b)
+    Quantifier: local offset sqrt(x^2 + y^2) <= 5 km (rho = 5000/R), |phi0| <= 60 deg (c >= 1/2, |T| = |tan phi0| <= sqrt 3).
+    Every transcendental value is a fresh real constrained by a NAMED enclosure (all true of the real functions, A8):
+        t^2 (1 - t^2/12) <= 4 sin^2(t/2) <= t^2;   1 - t^2/2 <= cos t <= 1;   sin^2 t <= t^2, (sin t - t)^2 <= (t^3/6)^2,
+        t sin t >= 0;   cos(p + a) = cos p cos a - sin p sin a, sin(p + a) = sin p cos a + cos p sin a;   cos^2 + sin^2 = 1;
+        s <= asin s <= s (1 + s^2) for 0 <= s <= 1/10;   sqrt(h)^2 = h, sqrt >= 0;
+        the angle between (x, y) and (E, N) is asin(|cross| / (|v||w|)) when v.w > 0, and sin(0.1 deg) > 0.001745.
+    The chain is split so that every step is a small polynomial inequality (z3 nlsat: milliseconds to a second each)."""
+    if not ctx.wants(P):
+        return
+    Q = z3.Q
+    a, b, c, T = z3.Reals("acc_a acc_b acc_c acc_T")
+    rho2 = Q(5000, 6371000) * Q(5000, 6371000)
+    x, y = c * b, a                      # local offset in units of R
+    q2 = x * x + y * y
+    box = [q2 <= rho2, c >= Q(1, 2), c <= 1, c * c * (1 + T * T) == 1]      # sin(phi0) = T c,  cos^2 + sin^2 = 1
+
+    def lemma(name, hyps, goal):
+        ctx.lemma("accuracy." + name, SBool(z3.Implies(z3.And(*(box + list(hyps))), goal)), props=P)
+    # ---------------------------------------------------------------- distance
+    Sa, Sb, ca, sa = z3.Reals("acc_Sa acc_Sb acc_ca acc_sa")      # 4 sin^2(a/2), 4 sin^2(b/2), cos a, sin a
+    encd = [Sa <= a * a, Sa >= a * a * (1 - a * a / 12), Sb <= b * b, Sb >= b * b * (1 - b * b / 12), ca <= 1, ca >= 1 - a * a / 2,
+            sa * sa <= a * a, (sa - a) * (sa - a) <= (a * a * a / 6) * (a * a * a / 6), sa * a >= 0]
+    H4 = Sa + c * (c * (ca - T * sa)) * Sb                            # 4 hav;  cos(phi0 + a) = c (cos a - T sin a)
+    eps = Q(14, 10000)
+    lemma("distance.haversine-within-0.14-percent-of-the-squared-local-offset", encd, z3.And(H4 <= (1 + eps) * q2, H4 >= (1 - eps) * q2))
+    s_, q, A = z3.Reals("acc_s acc_q acc_asin")                      # sqrt(hav), sqrt(q2), asin(sqrt(hav))
+    ctx.lemma("accuracy.distance.great-circle-within-0.1-percent-of-local",
+              SBool(z3.Implies(z3.And(s_ >= 0, q >= 0, q * q <= rho2, 4 * s_ * s_ <= (1 + eps) * q * q, 4 * s_ * s_ >= (1 - eps) * q * q,
+                                      A >= s_, A <= s_ * (1 + s_ * s_)),
+                               z3.And(2 * A - q <= Q(1, 1000) * q, 2 * A - q >= -Q(1, 1000) * q))), props=P)
+    # ---------------------------------------------------------------- bearing
+    sb, cb = z3.Reals("acc_sb acc_cb")
+    enc = [sa * sa <= a * a, (sa - a) * (sa - a) <= (a * a * a / 6) * (a * a * a / 6), sa * a >= 0, ca <= 1, ca >= 1 - a * a / 2,
+           sb * sb <= b * b, (sb - b) * (sb - b) <= (b * b * b / 6) * (b * b * b / 6), sb * b >= 0, cb <= 1, cb >= 1 - b * b / 2]
+    s0 = T * c
+    E = sb * (c * ca - s0 * sa)
+    N = sa * (c * c + s0 * s0 * cb) + c * s0 * ca * (1 - cb)         # = c sin(phi0 + a) - s0 cos(phi0 + a) cos b
+    u, v, w1, w2, w3 = sb * ca - b, s0 * sa * sb, sa - a, sa * s0 * s0 * (1 - cb), c * s0 * ca * (1 - cb)
+    # E = x + (c u - v),  N = y + (w1 - w2 + w3): polynomial identities modulo cos^2 + sin^2 = 1
+    lemma("bearing.decomposition-of-the-great-circle-direction", [], z3.And(E == x + (c * u - v), N == y + (w1 - w2 + w3)))
+    lemma("bearing.same-half-plane (dot > 0)", enc + [q2 > 0], x * E + y * N > 0)
+    lemma("bearing.u", enc, u * u <= b * b * (a * a / 2 + b * b / 6) * (a * a / 2 + b * b / 6))
+    lemma("bearing.v", enc, v * v <= s0 * s0 * a * a * b * b)
+    lemma("bearing.w1", enc, w1 * w1 <= (a * a * a / 6) * (a * a * a / 6))
+    lemma("bearing.w2", enc, w2 * w2 <= a * a * s0 * s0 * s0 * s0 * (b * b / 2) * (b * b / 2))
+    lemma("bearing.w3", enc, w3 * w3 <= c * c * s0 * s0 * (b * b / 2) * (b * b / 2))
+    U, V, W1, W2, W3 = z3.Reals("acc_U acc_V acc_W1 acc_W2 acc_W3")
+    k1, k2, K = Q(1, 1000), Q(8661, 10000), Q(87, 100)
+    lemma("bearing.dE.a", [U * U <= b * b * (a * a / 2 + b * b / 6) * (a * a / 2 + b * b / 6)], z3.And(c * U <= k1 * q2, c * U >= -k1 * q2))
+    lemma("bearing.dE.b", [V * V <= s0 * s0 * a * a * b * b], z3.And(V <= k2 * q2, V >= -k2 * q2))
+    lemma("bearing.dN", [W1 * W1 <= (a * a * a / 6) * (a * a * a / 6), W2 * W2 <= a * a * s0 * s0 * s0 * s0 * (b * b / 2) * (b * b / 2),
+                         W3 * W3 <= c * c * s0 * s0 * (b * b / 2) * (b * b / 2)],
+          z3.And(W1 - W2 + W3 <= K * q2, W1 - W2 + W3 >= -K * q2))
+    X, Y, DE, DN, Q2, W2_ = z3.Reals("acc_X acc_Y acc_DE acc_DN acc_Q2 acc_Wsq")
+    sd = Q(1745, 1000000)                                            # < sin(0.1 deg) = 0.00174533
+    cross = X * (Y + DN) - Y * (X + DE)
+    ctx.lemma("accuracy.bearing.cross-product-below-sin(0.1deg)-times-the-lengths",
+              SBool(z3.Implies(z3.And(Q2 == X * X + Y * Y, Q2 <= rho2, DE <= K * Q2, DE >= -K * Q2, DN <= K * Q2, DN >= -K * Q2,
+                                      W2_ == (X + DE) * (X + DE) + (Y + DN) * (Y + DN)),
+                               cross * cross <= sd * sd * Q2 * W2_)), props=P)
+    # non-vacuity: the premises are satisfiable at a pinned point (1 km north-east of a reference at 45 deg)
+    ctx.lemma("accuracy.premises-satisfiable", SBool(z3.And(*(box + enc + encd + [a == Q(1, 9000), b == Q(1, 6000), q2 > 0]))), props=P, expect="sat", kind="cover")
+
+
 def generate(ctx):
     if not ctx.wants(P):
         return
+    generate_accuracy(ctx)
     ns = harness.namespace("bldfm.config_parser")
     ns["math"] = MathShim
     fwd = harness.define(ctx, ns, "bldfm.config_parser", "latlon_to_xy")
